@@ -16,26 +16,42 @@ ENTRY_STATES = [('no cache', False, False), ('x,y cached', True, False), ('x,y,r
 
 def mutators(db):
     """Public methods of Interferogram/RichData that assign or mutate self.* (discovered from the source)."""
-    out = []
-    seen = set()
+    # a method writes the object if it assigns / updates in place something reached through self, or calls a method of the object
+    # (public or private helper) that does: least fixpoint over the methods of the class chain
+    methods = {}
     for ci in db.class_chain(db.cls(I)):
         for name, fi in ci.methods.items():
-            if name in seen or name.startswith('_') or name.endswith('.setter') or 'property' in fi.decorators or 'staticmethod' in fi.decorators or 'classmethod' in fi.decorators:
+            if name.endswith('.setter') or name in methods:
                 continue
-            seen.add(name)
-            writes = False
-            for n in walk_no_nested(fi.node):
-                if isinstance(n, (ast.Assign, ast.AugAssign)):
-                    tgts = n.targets if isinstance(n, ast.Assign) else [n.target]
-                    for t in tgts:
-                        for x in ast.walk(t):
-                            if isinstance(x, ast.Attribute) and isinstance(x.value, ast.Name) and x.value.id == 'self':
-                                writes = True
-                if isinstance(n, ast.Call) and isinstance(n.func, ast.Attribute) and isinstance(n.func.value, ast.Name) and n.func.value.id == 'self' \
-                        and n.func.attr in ('latcal', 'strip_latcal', 'crop', 'pad', 'recenter'):
-                    writes = True
-            if writes:
-                out.append(fi)
+            methods[name] = fi
+    direct, calls = set(), {}
+    for name, fi in methods.items():
+        calls[name] = set()
+        for n in walk_no_nested(fi.node):
+            if isinstance(n, (ast.Assign, ast.AugAssign)):
+                tgts = n.targets if isinstance(n, ast.Assign) else [n.target]
+                for t in tgts:
+                    for x in ast.walk(t):
+                        if isinstance(x, ast.Attribute) and isinstance(x.value, ast.Name) and x.value.id == 'self':
+                            direct.add(name)
+            if isinstance(n, ast.Call) and isinstance(n.func, ast.Attribute) and isinstance(n.func.value, ast.Name) and n.func.value.id == 'self' and n.func.attr in methods:
+                calls[name].add(n.func.attr)
+            if isinstance(n, ast.Call) and isinstance(n.func, ast.Name) and n.func.id == 'setattr' and n.args and isinstance(n.args[0], ast.Name) and n.args[0].id == 'self':
+                direct.add(name)
+    writers = set(direct)
+    changed = True
+    while changed:
+        changed = False
+        for name in methods:
+            if name not in writers and calls[name] & writers:
+                writers.add(name)
+                changed = True
+    out = []
+    for name, fi in methods.items():
+        if name.startswith('_') or 'property' in fi.decorators or 'staticmethod' in fi.decorators or 'classmethod' in fi.decorators:
+            continue
+        if name in writers:
+            out.append(fi)
     return out
 
 
@@ -445,6 +461,17 @@ def fit_rules(run, db):
         def subscript(v, idx, node):
             if isinstance(idx, MaskV) and dom.rat(v) is not None:
                 return v
+            # axis[None, :] / axis[:, None] of a function of ONE coordinate vector: the grid of that coordinate along the columns / the
+            # rows, which is what meshgrid hands out as XX / YY (a grid built by broadcasting instead of meshgrid)
+            r_ = dom.rat(v) if not isinstance(v, (_Tup, MaskV)) else None
+            if r_ is not None and isinstance(idx, _Tup) and len(idx.items) == 2:
+                from ..core.interp import Slice as _Slice
+                full = lambda x: isinstance(x, _Slice) and all(isinstance(z, Const) and z.v is None for z in (x.lo, x.hi, x.step))
+                none = lambda x: isinstance(x, Const) and x.v is None
+                lins = sorted(a for a in r_.atoms() if a.startswith('lin'))
+                if len(lins) == 1 and ((none(idx.items[0]) and full(idx.items[1])) or (full(idx.items[0]) and none(idx.items[1]))):
+                    from ..domains.normdom import Sym as _Sym
+                    return _Sym(r_.subs({lins[0]: Rat(dom.R.atom('XX' if none(idx.items[0]) else 'YY'))}))
             return osub(v, idx, node)
 
         def getattr_(v, name, node):
